@@ -5,6 +5,7 @@ package drpcstream
 
 import (
 	"context"
+	"errors"
 	"fmt"
 	"io"
 	"runtime/trace"
@@ -433,13 +434,17 @@ func (s *Stream) rawFlushLocked() (err error) {
 }
 
 func (s *Stream) checkRecvFlush() (err error) {
+	// a flush fails with io.EOF once the remote side has ended the stream
+	// with an error: what is pending can not be sent any more. that must not
+	// end the receive with io.EOF: it goes on and reports what the stream was
+	// ended with.
 	s.flush.Do(func() { err = s.RawFlush() })
-	if err != nil {
+	if err != nil && !errors.Is(err, io.EOF) {
 		return err
 	}
 
 	if s.opts.ManualFlush && !s.wr.Empty() {
-		if err := s.RawFlush(); err != nil {
+		if err := s.RawFlush(); err != nil && !errors.Is(err, io.EOF) {
 			return err
 		}
 	}
